@@ -37,6 +37,8 @@ Inductive lab :=
 | LGate (g : gateres)       (* the block hook the executor is parked in returns *)
 | LGateHold (g : gateres)   (* the same, and if the executor finishes in this run its FinishTask call is held back *)
 | LFinish                   (* the held FinishTask call goes through (the loop handles finishTask) *)
+| LArmStart                 (* the next time the worker pops this request's task, its StartTask round trip is held back *)
+| LStart                    (* the held StartTask call goes through (the loop handles startTask) *)
 | LSend (ok : bool)         (* SendMsg of the message in flight returns; false = the peer is gone (queue shut down) *)
 | LHold | LRelease.         (* the only worker gets / finishes a task of another peer *)
 
@@ -74,6 +76,8 @@ Record state := mkState {
   sig_err : option errk;
   tq : N;
   held : bool;
+  arm : bool;
+  stk : bool;
   gate : option bool;
   fin : option fres;
   closed : bool;
@@ -86,26 +90,28 @@ Record state := mkState {
   n_net : N;
   n_fail : N }.
 
-Definition set_seen (v : bool) (s : state) : state := mkState v (ent s) (sig_pause s) (sig_upd s) (sig_err s) (tq s) (held s) (gate s) (fin s) (closed s) (infl s) (pend s) (nprot s) (unprot s) (evs s) (n_done s) (n_net s) (n_fail s).
-Definition set_ent (v : option entry) (s : state) : state := mkState (seen s) v (sig_pause s) (sig_upd s) (sig_err s) (tq s) (held s) (gate s) (fin s) (closed s) (infl s) (pend s) (nprot s) (unprot s) (evs s) (n_done s) (n_net s) (n_fail s).
-Definition set_sig_pause (v : bool) (s : state) : state := mkState (seen s) (ent s) v (sig_upd s) (sig_err s) (tq s) (held s) (gate s) (fin s) (closed s) (infl s) (pend s) (nprot s) (unprot s) (evs s) (n_done s) (n_net s) (n_fail s).
-Definition set_sig_upd (v : bool) (s : state) : state := mkState (seen s) (ent s) (sig_pause s) v (sig_err s) (tq s) (held s) (gate s) (fin s) (closed s) (infl s) (pend s) (nprot s) (unprot s) (evs s) (n_done s) (n_net s) (n_fail s).
-Definition set_sig_err (v : option errk) (s : state) : state := mkState (seen s) (ent s) (sig_pause s) (sig_upd s) v (tq s) (held s) (gate s) (fin s) (closed s) (infl s) (pend s) (nprot s) (unprot s) (evs s) (n_done s) (n_net s) (n_fail s).
-Definition set_tq (v : N) (s : state) : state := mkState (seen s) (ent s) (sig_pause s) (sig_upd s) (sig_err s) v (held s) (gate s) (fin s) (closed s) (infl s) (pend s) (nprot s) (unprot s) (evs s) (n_done s) (n_net s) (n_fail s).
-Definition set_held (v : bool) (s : state) : state := mkState (seen s) (ent s) (sig_pause s) (sig_upd s) (sig_err s) (tq s) v (gate s) (fin s) (closed s) (infl s) (pend s) (nprot s) (unprot s) (evs s) (n_done s) (n_net s) (n_fail s).
-Definition set_gate (v : option bool) (s : state) : state := mkState (seen s) (ent s) (sig_pause s) (sig_upd s) (sig_err s) (tq s) (held s) v (fin s) (closed s) (infl s) (pend s) (nprot s) (unprot s) (evs s) (n_done s) (n_net s) (n_fail s).
-Definition set_fin (v : option fres) (s : state) : state := mkState (seen s) (ent s) (sig_pause s) (sig_upd s) (sig_err s) (tq s) (held s) (gate s) v (closed s) (infl s) (pend s) (nprot s) (unprot s) (evs s) (n_done s) (n_net s) (n_fail s).
-Definition set_closed (v : bool) (s : state) : state := mkState (seen s) (ent s) (sig_pause s) (sig_upd s) (sig_err s) (tq s) (held s) (gate s) (fin s) v (infl s) (pend s) (nprot s) (unprot s) (evs s) (n_done s) (n_net s) (n_fail s).
-Definition set_infl (v : option N) (s : state) : state := mkState (seen s) (ent s) (sig_pause s) (sig_upd s) (sig_err s) (tq s) (held s) (gate s) (fin s) (closed s) v (pend s) (nprot s) (unprot s) (evs s) (n_done s) (n_net s) (n_fail s).
-Definition set_pend (v : option N) (s : state) : state := mkState (seen s) (ent s) (sig_pause s) (sig_upd s) (sig_err s) (tq s) (held s) (gate s) (fin s) (closed s) (infl s) v (nprot s) (unprot s) (evs s) (n_done s) (n_net s) (n_fail s).
-Definition set_nprot (v : N) (s : state) : state := mkState (seen s) (ent s) (sig_pause s) (sig_upd s) (sig_err s) (tq s) (held s) (gate s) (fin s) (closed s) (infl s) (pend s) v (unprot s) (evs s) (n_done s) (n_net s) (n_fail s).
-Definition set_unprot (v : N) (s : state) : state := mkState (seen s) (ent s) (sig_pause s) (sig_upd s) (sig_err s) (tq s) (held s) (gate s) (fin s) (closed s) (infl s) (pend s) (nprot s) v (evs s) (n_done s) (n_net s) (n_fail s).
-Definition set_evs (v : list ev) (s : state) : state := mkState (seen s) (ent s) (sig_pause s) (sig_upd s) (sig_err s) (tq s) (held s) (gate s) (fin s) (closed s) (infl s) (pend s) (nprot s) (unprot s) v (n_done s) (n_net s) (n_fail s).
-Definition set_n_done (v : N) (s : state) : state := mkState (seen s) (ent s) (sig_pause s) (sig_upd s) (sig_err s) (tq s) (held s) (gate s) (fin s) (closed s) (infl s) (pend s) (nprot s) (unprot s) (evs s) v (n_net s) (n_fail s).
-Definition set_n_net (v : N) (s : state) : state := mkState (seen s) (ent s) (sig_pause s) (sig_upd s) (sig_err s) (tq s) (held s) (gate s) (fin s) (closed s) (infl s) (pend s) (nprot s) (unprot s) (evs s) (n_done s) v (n_fail s).
-Definition set_n_fail (v : N) (s : state) : state := mkState (seen s) (ent s) (sig_pause s) (sig_upd s) (sig_err s) (tq s) (held s) (gate s) (fin s) (closed s) (infl s) (pend s) (nprot s) (unprot s) (evs s) (n_done s) (n_net s) v.
+Definition set_seen (v : bool) (s : state) : state := mkState v (ent s) (sig_pause s) (sig_upd s) (sig_err s) (tq s) (held s) (arm s) (stk s) (gate s) (fin s) (closed s) (infl s) (pend s) (nprot s) (unprot s) (evs s) (n_done s) (n_net s) (n_fail s).
+Definition set_ent (v : option entry) (s : state) : state := mkState (seen s) v (sig_pause s) (sig_upd s) (sig_err s) (tq s) (held s) (arm s) (stk s) (gate s) (fin s) (closed s) (infl s) (pend s) (nprot s) (unprot s) (evs s) (n_done s) (n_net s) (n_fail s).
+Definition set_sig_pause (v : bool) (s : state) : state := mkState (seen s) (ent s) v (sig_upd s) (sig_err s) (tq s) (held s) (arm s) (stk s) (gate s) (fin s) (closed s) (infl s) (pend s) (nprot s) (unprot s) (evs s) (n_done s) (n_net s) (n_fail s).
+Definition set_sig_upd (v : bool) (s : state) : state := mkState (seen s) (ent s) (sig_pause s) v (sig_err s) (tq s) (held s) (arm s) (stk s) (gate s) (fin s) (closed s) (infl s) (pend s) (nprot s) (unprot s) (evs s) (n_done s) (n_net s) (n_fail s).
+Definition set_sig_err (v : option errk) (s : state) : state := mkState (seen s) (ent s) (sig_pause s) (sig_upd s) v (tq s) (held s) (arm s) (stk s) (gate s) (fin s) (closed s) (infl s) (pend s) (nprot s) (unprot s) (evs s) (n_done s) (n_net s) (n_fail s).
+Definition set_tq (v : N) (s : state) : state := mkState (seen s) (ent s) (sig_pause s) (sig_upd s) (sig_err s) v (held s) (arm s) (stk s) (gate s) (fin s) (closed s) (infl s) (pend s) (nprot s) (unprot s) (evs s) (n_done s) (n_net s) (n_fail s).
+Definition set_held (v : bool) (s : state) : state := mkState (seen s) (ent s) (sig_pause s) (sig_upd s) (sig_err s) (tq s) v (arm s) (stk s) (gate s) (fin s) (closed s) (infl s) (pend s) (nprot s) (unprot s) (evs s) (n_done s) (n_net s) (n_fail s).
+Definition set_arm (v : bool) (s : state) : state := mkState (seen s) (ent s) (sig_pause s) (sig_upd s) (sig_err s) (tq s) (held s) v (stk s) (gate s) (fin s) (closed s) (infl s) (pend s) (nprot s) (unprot s) (evs s) (n_done s) (n_net s) (n_fail s).
+Definition set_stk (v : bool) (s : state) : state := mkState (seen s) (ent s) (sig_pause s) (sig_upd s) (sig_err s) (tq s) (held s) (arm s) v (gate s) (fin s) (closed s) (infl s) (pend s) (nprot s) (unprot s) (evs s) (n_done s) (n_net s) (n_fail s).
+Definition set_gate (v : option bool) (s : state) : state := mkState (seen s) (ent s) (sig_pause s) (sig_upd s) (sig_err s) (tq s) (held s) (arm s) (stk s) v (fin s) (closed s) (infl s) (pend s) (nprot s) (unprot s) (evs s) (n_done s) (n_net s) (n_fail s).
+Definition set_fin (v : option fres) (s : state) : state := mkState (seen s) (ent s) (sig_pause s) (sig_upd s) (sig_err s) (tq s) (held s) (arm s) (stk s) (gate s) v (closed s) (infl s) (pend s) (nprot s) (unprot s) (evs s) (n_done s) (n_net s) (n_fail s).
+Definition set_closed (v : bool) (s : state) : state := mkState (seen s) (ent s) (sig_pause s) (sig_upd s) (sig_err s) (tq s) (held s) (arm s) (stk s) (gate s) (fin s) v (infl s) (pend s) (nprot s) (unprot s) (evs s) (n_done s) (n_net s) (n_fail s).
+Definition set_infl (v : option N) (s : state) : state := mkState (seen s) (ent s) (sig_pause s) (sig_upd s) (sig_err s) (tq s) (held s) (arm s) (stk s) (gate s) (fin s) (closed s) v (pend s) (nprot s) (unprot s) (evs s) (n_done s) (n_net s) (n_fail s).
+Definition set_pend (v : option N) (s : state) : state := mkState (seen s) (ent s) (sig_pause s) (sig_upd s) (sig_err s) (tq s) (held s) (arm s) (stk s) (gate s) (fin s) (closed s) (infl s) v (nprot s) (unprot s) (evs s) (n_done s) (n_net s) (n_fail s).
+Definition set_nprot (v : N) (s : state) : state := mkState (seen s) (ent s) (sig_pause s) (sig_upd s) (sig_err s) (tq s) (held s) (arm s) (stk s) (gate s) (fin s) (closed s) (infl s) (pend s) v (unprot s) (evs s) (n_done s) (n_net s) (n_fail s).
+Definition set_unprot (v : N) (s : state) : state := mkState (seen s) (ent s) (sig_pause s) (sig_upd s) (sig_err s) (tq s) (held s) (arm s) (stk s) (gate s) (fin s) (closed s) (infl s) (pend s) (nprot s) v (evs s) (n_done s) (n_net s) (n_fail s).
+Definition set_evs (v : list ev) (s : state) : state := mkState (seen s) (ent s) (sig_pause s) (sig_upd s) (sig_err s) (tq s) (held s) (arm s) (stk s) (gate s) (fin s) (closed s) (infl s) (pend s) (nprot s) (unprot s) v (n_done s) (n_net s) (n_fail s).
+Definition set_n_done (v : N) (s : state) : state := mkState (seen s) (ent s) (sig_pause s) (sig_upd s) (sig_err s) (tq s) (held s) (arm s) (stk s) (gate s) (fin s) (closed s) (infl s) (pend s) (nprot s) (unprot s) (evs s) v (n_net s) (n_fail s).
+Definition set_n_net (v : N) (s : state) : state := mkState (seen s) (ent s) (sig_pause s) (sig_upd s) (sig_err s) (tq s) (held s) (arm s) (stk s) (gate s) (fin s) (closed s) (infl s) (pend s) (nprot s) (unprot s) (evs s) (n_done s) v (n_fail s).
+Definition set_n_fail (v : N) (s : state) : state := mkState (seen s) (ent s) (sig_pause s) (sig_upd s) (sig_err s) (tq s) (held s) (arm s) (stk s) (gate s) (fin s) (closed s) (infl s) (pend s) (nprot s) (unprot s) (evs s) (n_done s) (n_net s) v.
 Definition init : state :=
-  mkState false None false false None 0 false None None false None None 0 0 [] 0 0 0.
+  mkState false None false false None 0 false false false None None false None None 0 0 [] 0 0 0.
 
 Definition is_term (c : N) : bool := ((20 <=? c) && (c <=? 21)) || ((30 <=? c) && (c <=? 35)).   (* responsecode.go IsTerminal *)
 
@@ -259,9 +265,13 @@ Definition start_task (c : cfg) (more : bool) (ord : N) (s : state) : state :=
 
 Definition gate_free (s : state) : bool := match gate s with None => true | Some _ => false end.
 
-(* taskqueue.go worker: pops when it is free *)
+(* taskqueue.go worker: pops when it is free (the task is then active in the queue); ExecuteTask's first act
+   is the StartTask round trip into the loop — with `arm` the worker is parked just before it (stk), so that
+   whatever reaches the loop meanwhile is handled while the entry is still Queued and the task already popped *)
 Definition try_pop (c : cfg) (more : bool) (ord : N) (s : state) : state :=
-  if (tq s =? 1) && negb (held s) && gate_free s then start_task c more ord s else s.
+  if (tq s =? 1) && negb (held s) && gate_free s && negb (stk s) && (match fin s with None => true | Some _ => false end) then
+    if arm s then set_stk true (set_arm false (set_tq 2 s)) else start_task c more ord s
+  else s.
 
 Definition push_task (c : cfg) (more : bool) (ord : N) (s : state) : state :=
   try_pop c more ord (if tq s =? 0 then set_tq 1 s else s).
@@ -380,6 +390,8 @@ Definition step_ret_m (c : cfg) (more : bool) (s0 : state) (l : label) : state *
     | None => (s, 0)
     | Some r => (finish_task c r (set_fin None s), 0)
     end
+  | LArmStart => if stk s || (tq s =? 2) then (s, 0) else (set_arm true s, 0)
+  | LStart => if stk s then (start_task c more ord (set_stk false s), 0) else (s, 0)
   | LHold => if held s || negb (gate_free s) || negb (tq s =? 0) then (s, 0) else (set_held true s, 0)
   | LRelease => if held s then (try_pop c more ord (set_held false s), 0) else (s, 0)
   end.
@@ -405,7 +417,7 @@ Record obs := Build_obs {
   ob_st : N;            (* PeerState: 0 not listed, 1 Queued, 2 Running, 3 Paused, 4 CompletingSend *)
   ob_tq : N;            (* PeerState task queue: 0 none, 1 pending, 2 active *)
   ob_prot : N; ob_unprot : N;      (* ConnManager.Protect / Unprotect calls so far *)
-  ob_exec : N;          (* 0 = executor idle, k+1 = parked in the hook of block k, 50 = parked before FinishTask *)
+  ob_exec : N;          (* 0 = executor idle, k+1 = parked in the hook of block k, 50 = parked before FinishTask, 51 = before StartTask *)
   ob_infl : N;          (* status of this request in the message inside SendMsg; 0 = nothing in flight *)
   ob_compl : N;         (* completed-listener notification during the step: 0 none, its status, 1 = more than one *)
   ob_canc : N; ob_net : N; ob_proc : N;   (* cancelled / network-error / request-processing notifications during the step *)
@@ -417,7 +429,7 @@ Definition count_ev (f : ev -> bool) (s : state) : N := N.of_nat (length (filter
 Definition observe (fs : fstate) (ret : N) : obs :=
   let '(s, p) := fs in
   Build_obs (st_code s) (tq s) (nprot s) (unprot s)
-    (match gate s with Some _ => p + 1 | None => match fin s with Some _ => 50 | None => 0 end end) (match infl s with Some m => m | None => 0 end)
+    (match gate s with Some _ => p + 1 | None => match fin s with Some _ => 50 | None => if stk s then 51 else 0 end end) (match infl s with Some m => m | None => 0 end)
     (match flat_map (fun e => match e with EvCompleted c => [c] | _ => [] end) (evs s) with [] => 0 | [c] => c | _ => 1 end)
     (count_ev (fun e => match e with EvCancelled => true | _ => false end) s)
     (count_ev (fun e => match e with EvNetErr => true | _ => false end) s)
@@ -469,7 +481,7 @@ Definition fres_eqb (a b : fres) : bool :=
 Definition state_eqb (a b : state) : bool :=
   Bool.eqb (seen a) (seen b) && option_eqb entry_eqb (ent a) (ent b) && Bool.eqb (sig_pause a) (sig_pause b) &&
   Bool.eqb (sig_upd a) (sig_upd b) && option_eqb errk_eqb (sig_err a) (sig_err b) && (tq a =? tq b) &&
-  Bool.eqb (held a) (held b) && option_eqb Bool.eqb (gate a) (gate b) && option_eqb fres_eqb (fin a) (fin b) && Bool.eqb (closed a) (closed b) &&
+  Bool.eqb (held a) (held b) && Bool.eqb (arm a) (arm b) && Bool.eqb (stk a) (stk b) && option_eqb Bool.eqb (gate a) (gate b) && option_eqb fres_eqb (fin a) (fin b) && Bool.eqb (closed a) (closed b) &&
   option_eqb N.eqb (infl a) (infl b) && option_eqb N.eqb (pend a) (pend b) && (nprot a =? nprot b) && (unprot a =? unprot b) &&
   list_eqb ev_eqb (evs a) (evs b) && (n_done a =? n_done b) && (n_net a =? n_net b) && (n_fail a =? n_fail b).
 Definition fstate_eqb (a b : fstate) : bool := state_eqb (fst a) (fst b) && (snd a =? snd b).
@@ -520,8 +532,10 @@ Definition mon_step (m : mstate) (lo : lab * obs) : option mstate :=
   (* retired: at rest and not paused => not listed, and some outcome was reported *)
   (* no task of a response that is gone stays active or pending once the executor is out of it *)
   let task_ok := negb (seen' && (ob_st o =? 0) && (ob_exec o =? 0)) || (ob_tq o =? 0) in
+  (* a block is only ever processed for a response that is Running *)
+  let exec_ok := negb ((1 <=? ob_exec o) && (ob_exec o <? 50)) || (ob_st o =? 2) in
   let rest_ok := negb (seen' && quiescent_obs o) || ((ob_st o =? 0) && (1 <=? m_compl m' + m_canc m' + m_net m')) in
-  if compl_ok && net_ok && prot_ok && gone_ok && once_ok && task_ok && rest_ok then Some m' else None.
+  if compl_ok && net_ok && prot_ok && gone_ok && once_ok && task_ok && exec_ok && rest_ok then Some m' else None.
 
 Fixpoint mon_run (m : mstate) (tr : list (lab * obs)) : bool :=
   match tr with
